@@ -52,9 +52,12 @@ def run(run):
     c01._r1_algebra(sub, ev)
     c01._r6_serial(sub, ev)
     c01._dispatcher(sub, ev)
+    c01._r8_subpyramid(sub, ev)
     for o in sub.obs:
         if o.rule == "C01.R1" and o.construct in ("pos_children", "pos_parent"):
             o.rule = "C13.R1"
+        elif o.rule == "C01.R8":
+            o.rule = "C13.R3"      # the sub-pyramid restriction: position filter AND user filter, iteration stops above the apex
         elif o.rule == "C01.R6" and o.construct in ("_postfix_pos", "_postfix_corner"):
             o.rule = "C13.R2"
         elif o.rule in ("C01.R3",) or (o.rule == "C01.R6" and o.construct == "Pyramid._walk_serial"):
